@@ -194,6 +194,12 @@ func (p c01) RunBatch(t *core.T, b core.Batch) {
 			if r.Chance(1, 8) { // same epoch more often, so later rules decide
 				bb.V.Epoch = a.V.Epoch
 			}
+			if r.Chance(1, 10) { // epochs beyond dpkg's INT_MAX (compared as struct values, no text involved)
+				a.V.Epoch = r.PickU64(gen.BigEpochs)
+				if r.Bool() {
+					bb.V.Epoch = r.PickU64(gen.BigEpochs)
+				}
+			}
 			t.Case("pair", encPair(a.V, bb.V), func(c *core.C) {
 				p.judge(t, rc, a.V, bb.V, true)
 				p.judge(t, rc, bb.V, a.V, false)
